@@ -27,6 +27,7 @@ const (
 
 type UFCfg struct {
 	Injective bool
+	As        string // UF name shared by several functions (e.g. sha256)
 }
 
 type Config struct {
@@ -51,6 +52,7 @@ type Config struct {
 	NoInit    []string
 	HavocMax  int // max length of havoc'd byte slices
 	WallS     int // wall-clock budget of the whole harness run
+	NoAssumeCheck bool // skip the feasibility query after vsAssume (harnesses with hard sat side)
 	Solver    string
 	Expect    map[string]bool // assertion ids expected to fail (known findings) - informational
 	Tier      string
@@ -109,6 +111,9 @@ type Report struct {
 	Terms          int
 	Observations   []string
 	Witnesses      []PathWitness
+	PortfolioQueries int
+	PortfolioTime    time.Duration
+	PortfolioWins    map[string]int
 	InitNotes      []string
 	Samples        []string
 }
@@ -229,7 +234,7 @@ func NewInterp(prog *ssa.Program, cfg *Config) (*Interp, error) {
 	in.C = smt.NewCtx()
 	kind := cfg.Solver
 	if kind == "" {
-		kind = "z3"
+		kind = "z3-new"
 	}
 	s, err := smt.NewSolver(kind, in.C, cfg.TimeoutS)
 	if err != nil {
@@ -437,7 +442,7 @@ func (in *Interp) checkSat(extra ...*smt.Term) smt.Result {
 	}
 	as := append(append([]*smt.Term(nil), in.pc...), extra...)
 	t0 := time.Now()
-	r, _ := in.S.Check(as, nil)
+	r, _ := in.solve(as, nil)
 	if Debug && time.Since(t0) > time.Second {
 		fmt.Fprintf(os.Stderr, "[%s] slow query %.1fs -> %v at %s (pc=%d terms=%d)\n", in.Cfg.Name, time.Since(t0).Seconds(), r, in.where(), len(in.pc), in.C.NumTerms())
 	}
@@ -555,7 +560,7 @@ func (in *Interp) concretize(t *smt.Term, what string) uint64 {
 	var excl []*smt.Term
 	for {
 		as := append(append([]*smt.Term(nil), in.pc...), excl...)
-		r, m := in.S.Check(as, []*smt.Term{t})
+		r, m := in.solve(as, []*smt.Term{t})
 		if r == smt.Unsat {
 			break
 		}
@@ -589,14 +594,14 @@ func (in *Interp) modelInputs(extra ...*smt.Term) (map[string]string, bool) {
 	var ts []*smt.Term
 	for _, iv := range in.inputs {
 		switch iv.kind {
-		case "bv":
+		case "bv", "wide":
 			ts = append(ts, iv.t)
 		case "bytes":
 			ts = append(ts, iv.lenT)
 		}
 	}
 	as := append(append([]*smt.Term(nil), in.pc...), extra...)
-	r, m := in.S.Check(as, ts)
+	r, m := in.solve(as, ts)
 	if r != smt.Sat {
 		return nil, false
 	}
@@ -621,6 +626,11 @@ func (in *Interp) modelInputs(extra ...*smt.Term) (map[string]string, bool) {
 			out[iv.tag] = "0x" + m[k].Text(16)
 			pins = append(pins, in.C.Eq(iv.t, in.C.BVBig(iv.t.Sort.W, m[k])))
 			k++
+		case "wide":
+			out[iv.tag] = fmt.Sprintf("%0*x", iv.t.Sort.W/4, m[k])
+			out[iv.tag+"#len"] = fmt.Sprint(iv.t.Sort.W / 8)
+			pins = append(pins, in.C.Eq(iv.t, in.C.BVBig(iv.t.Sort.W, m[k])))
+			k++
 		case "bytes":
 			n := int(m[k].Uint64())
 			pins = append(pins, in.C.Eq(iv.lenT, in.C.BVBig(64, m[k])))
@@ -637,7 +647,7 @@ func (in *Interp) modelInputs(extra ...*smt.Term) (map[string]string, bool) {
 	}
 	if len(byteTs) > 0 {
 		as2 := append(as, pins...)
-		r2, m2 := in.S.Check(as2, byteTs)
+		r2, m2 := in.solve(as2, byteTs)
 		if r2 == smt.Sat {
 			k := 0
 			for _, b := range brefs {
@@ -791,4 +801,59 @@ func shortFile(p string) string {
 		return p[i+len("/pkg/mod/"):]
 	}
 	return p
+}
+
+// setQueryTimeout bounds the next query by the per-query timeout and the remaining wall budget.
+func (in *Interp) setQueryTimeout() {
+	ms := in.Cfg.TimeoutS * 1000
+	if ms <= 0 {
+		ms = 60000
+	}
+	if !in.deadline.IsZero() {
+		rem := int(time.Until(in.deadline).Milliseconds()) + 2000
+		if rem < 1000 {
+			rem = 1000
+		}
+		if rem < ms {
+			ms = rem
+		}
+	}
+	in.S.NextTimeoutMs = ms
+}
+
+// solve: a short attempt on the incremental session first; when that is inconclusive, a
+// portfolio of fresh one-shot solver processes with the full per-query timeout.
+func (in *Interp) solve(as []*smt.Term, want []*smt.Term) (smt.Result, []*big.Int) {
+	in.setQueryTimeout()
+	full := in.S.NextTimeoutMs
+	fast := 4000
+	if fast > full {
+		fast = full
+	}
+	in.S.NextTimeoutMs = fast
+	r, m := in.S.Check(as, want)
+	if r != smt.Unknown {
+		return r, m
+	}
+	rem := full/1000 - fast/1000
+	if rem < 2 {
+		rem = 2
+	}
+	t0 := time.Now()
+	r2, m2, who := smt.Portfolio(in.C, as, want, rem)
+	in.Rep.PortfolioQueries++
+	in.Rep.PortfolioTime += time.Since(t0)
+	if r2 != smt.Unknown {
+		in.S.NUnknown--
+		if r2 == smt.Sat {
+			in.S.NSat++
+		} else {
+			in.S.NUnsat++
+		}
+		if in.Rep.PortfolioWins == nil {
+			in.Rep.PortfolioWins = map[string]int{}
+		}
+		in.Rep.PortfolioWins[who]++
+	}
+	return r2, m2
 }
